@@ -61,7 +61,8 @@ class Body:
             return (("p", proj[0][1] + 1), tuple(proj[1:]))
         if 1 <= base <= fn.argc and not fn.coro:
             return (("p", base), tuple(proj))
-        ds = self.defs.get(base, [])
+        # stores THROUGH the pointer (`(*p).f = v`, recorded as partial definitions) do not redefine the pointer itself
+        ds = [x for x in self.defs.get(base, []) if x[0] in ("=", "call", "yield")]
         if len(ds) == 1:
             d = ds[0]
             if d[0] == "=":
@@ -139,10 +140,73 @@ def kill_blocks(fb, body, ident, reset_memo):
         if g is not None and not g.is_closure:
             for i, a in enumerate(c["args"]):
                 pt = body.pointee(a)
-                if pt is not None and pt == ident and R.param_definitely_reset(fb, g, i + 1, 2, reset_memo):
+                if pt is None:
+                    continue
+                if pt == ident and R.param_definitely_reset(fb, g, i + 1, 2, reset_memo):
                     out.add(bi)
                     break
+                # the callee is handed a parent object and resets the part we are interested in on all of its success paths
+                if _is_prefix(pt, ident) and len(pt[1]) < len(ident[1]) and _depth[0] < 2:
+                    sub = tuple(ident[1][len(pt[1]):])
+                    if "*" not in sub and callee_definitely_resets(fb, g, (("p", i + 1), ("*",) + sub), reset_memo):
+                        out.add(bi)
+                        break
     return out
+
+
+_depth = [0]
+
+
+def callee_definitely_resets(fb, g, ident, reset_memo):
+    key = ("sub", g.key, ident)
+    if key in reset_memo:
+        return reset_memo[key]
+    reset_memo[key] = False
+    _depth[0] += 1
+    try:
+        kb = kill_blocks(fb, Body(fb, g), ident, reset_memo)
+    finally:
+        _depth[0] -= 1
+    ex = C.success_exit_blocks(g)
+    reach = C.reachable(g, 0, removed=kb) if 0 not in kb else set()
+    reset_memo[key] = bool(ex) and not any(e in reach for e in ex)
+    return reset_memo[key]
+
+
+def field_reset_rule(ctx, rule, fkey, param, field_path, what):
+    """Every entry -> success path of fkey resets the part `field_path` (list of (owner ADT, field name)) of the object behind
+    pointer parameter `param`: assignment, clear/take on it or on a parent, or a callee that does so on all of its paths."""
+    fb = ctx.fb
+    f = ctx.anchor(rule, fkey)
+    if f is None:
+        return
+    path = ["*"]
+    for owner, name in field_path:
+        adt = fb.adts.get(owner)
+        idx = None
+        if adt is not None:
+            for v in adt["variants"]:
+                for i, fl in enumerate(v["fields"]):
+                    if fl["name"] == name:
+                        idx = i
+        if idx is None:
+            ctx.violation(rule, "%s/ANCHOR-MISSING/%s.%s" % (rule, owner, name), "field %s.%s not found" % (owner, name), f.loc())
+            return
+        path.append(("f", idx))
+    ident = (("p", param), tuple(path))
+    kb = kill_blocks(fb, Body(fb, f), ident, {})
+    ex = C.success_exit_blocks(f)
+    reach = C.reachable(f, 0, removed=kb) if 0 not in kb else set()
+    hit = [e for e in ex if e in reach]
+    if not ex:
+        ctx.violation(rule, "%s/NO-EXIT/%s" % (rule, fkey), "no success exit in %s" % fkey, f.loc())
+    elif hit:
+        pth = R.shortest_path(f, 0, set(hit), removed=kb) or []
+        ctx.violation(rule, "%s/stale/%s/%s" % (rule, fkey, field_path[-1][1]),
+                      "%s returns Ok on a path that does not reset %s (lines %s): a reused record keeps it from the previous read" % (
+                          fkey, what, R.path_lines(f, pth)), f.loc(hit[0]))
+    else:
+        ctx.ok(rule, "%s :: %s reset on every success path" % (fkey, what), "%d reset site(s)" % len(kb), f.loc())
 
 
 def logical(fb, fn):
